@@ -272,7 +272,7 @@ def diagnostics_of(files, argv=()):
 
 def valid_case(job, acc: Acc):
     name, text = job
-    d = diagnostics_of({"prog.f90": text})
+    d = diagnostics_of({"prog.f90": text}, LIMITS if name.endswith("+limits") else ())
     errs = [x for x in d.get("prog.f90", []) if x[1] == 1]
     acc.case(nontrivial_key=("valid", name), outcome=("valid", len(d.get("prog.f90", []))))
     for ln, sev, msg in errs:
@@ -297,19 +297,28 @@ def base_text(pname):
 _TREES = {}
 
 
+# the diagnostic classes must not depend on unrelated options: every seed is also run with generous line-length limits
+# switched on (the limits are checked by a separate pass over the text that shares its result list with the parser)
+LIMITS = ["--max_line_length", "500", "--max_comment_line_length", "500"]
+
+
 def seeded_case(job, acc: Acc):
-    pname, k = job
+    pname, k, with_limits = job if len(job) == 3 else (*job, False)
     lines = base_text(pname).rstrip("\n").split("\n")
     cls, new, offending, msg_re, sev, extra, argv = list(seeders(lines))[k]
+    if with_limits:
+        if "--max_line_length" in argv:
+            return
+        argv = list(argv) + LIMITS
     files = {"prog.f90": "\n".join(new) + "\n", **extra}
     d = diagnostics_of(files, argv)
     diags = d.get("prog.f90", [])
     base_cls = cls.split(":")[0]
     hits = [x for x in diags if re.search(msg_re, x[2]) and x[1] == sev]
     on_line = [x for x in hits if x[0] in offending]
-    acc.case(nontrivial_key=(pname, cls, tuple(sorted(offending))), outcome=(cls, bool(on_line)))
-    case = {"program": pname, "class": cls, "seed_index": k, "text": files["prog.f90"], "offending_lines": sorted(offending)}
-    tags = {"family": "seeded", "class": cls, "program": pname}
+    acc.case(nontrivial_key=(pname, cls, tuple(sorted(offending)), with_limits), outcome=(cls, bool(on_line), with_limits))
+    case = {"program": pname, "class": cls, "seed_index": k, "text": files["prog.f90"], "offending_lines": sorted(offending), "with_limits": with_limits}
+    tags = {"family": "seeded", "class": cls, "program": pname, "with_limits": with_limits}
     if not hits:
         acc.violation(Violation("seeded", {**tags, "obs": "not_reported"}, case, (msg_re, sev, sorted(offending)), diags,
                                 what=f"{pname} {cls} at {sorted(offending)}: no diagnostic of the class; got {diags[:4]}"))
@@ -422,6 +431,7 @@ def main(ctx):
     tree_budget = 3 if ctx.quick else 4
     tree_names = [f"tree:{b}:{i}" for b in range(1, tree_budget + 1) for i, _ in enumerate(c04.gen_files(b))]
     valid = [(n, t) for n, t in programs.PROGRAMS.items()] + list(INTRINSIC_PROGRAMS.items()) + [(n, base_text(n)) for n in tree_names]
+    valid += [(n + "+limits", t) for n, t in programs.PROGRAMS.items()]
     vacc = core.pmap(valid_case, valid, chunk=1, budget_s=60, label="C07/valid")
     ctx.add_family("valid", vacc)
     jobs = []
@@ -431,7 +441,9 @@ def main(ctx):
         text = base_text(pname)
         lines = text.rstrip("\n").split("\n")
         for k, sd in enumerate(seeders(lines)):
-            jobs.append((pname, k))
+            jobs.append((pname, k, False))
+            if pname in programs.PROGRAMS:
+                jobs.append((pname, k, True))
             per_class[sd[0].split(":")[0]] = per_class.get(sd[0].split(":")[0], 0) + 1
     sacc = core.pmap(seeded_case, jobs, chunk=8, budget_s=120, label="C07/seeded")
     ctx.add_family("seeded", sacc, seeds_per_class=per_class)
@@ -452,5 +464,5 @@ def replay(rec):
     elif rec["family"] == "valid":
         valid_case((c["program"], c["text"]), acc)
     else:
-        seeded_case((c["program"], c["seed_index"]), acc)
+        seeded_case((c["program"], c["seed_index"], c.get("with_limits", False)), acc)
     return [v.to_json("C07") for v in acc.violations] or None
